@@ -1028,7 +1028,10 @@ impl Check for ClientCheck {
                         vec![b("A", 1, 0), b("B", 0, 1), co("A"), ca("B"), b("B", 0, 0), co("B")],
                     ];
                     let kinds = vec![FaultKind::Eof, FaultKind::Reset, FaultKind::EofMid(2), FaultKind::EpipeAfter, FaultKind::Silence, FaultKind::Nack(0x9c), FaultKind::BadBody];
-                    fams.push(fault_at_every_point("fault_at_every_point_of_begin_commit_cancel", wl, kinds, 2));
+                    fams.push(fault_at_every_point("fault_at_every_point_of_begin_commit_cancel", wl.clone(), kinds, 2));
+                    // the terminal closes the connection while idle, between any two exchanges: the calls that follow
+                    // find a dead socket - and still act on their token's receipt
+                    fams.push(fault_at_every_point("connection_closed_while_idle_at_every_point", wl, vec![FaultKind::CloseIdle], 2));
                 }
                 // calls that must be refused without traffic, issued while the client has no connection
                 // and the terminal cannot be reached (the previous call used up its retries)
